@@ -29,6 +29,9 @@ pub enum TrackerOutcome {
     Good(Vec<usize>),
 }
 
+/// See `FullWorld::new_gated`.
+pub static WITH_VIEW: std::sync::atomic::AtomicBool = std::sync::atomic::AtomicBool::new(false);
+
 pub struct Conn {
     pub pipe: MemPipe,
     pub msgs: Vec<Msg>,
@@ -54,6 +57,9 @@ pub enum FEv {
     Batch(Vec<FEv>),
     /// Hand the oldest held-back manager broadcast to peer i's connection task (gated worlds).
     Release(usize),
+    /// Let a held re-write of this piece file go on (gated worlds: the file was truncated and is
+    /// empty until then).
+    FsRelease(String),
 }
 
 pub struct FullWorld {
@@ -96,6 +102,7 @@ impl FullWorld {
 
     pub fn new_gated(t: &Torrent, peer_cfgs: &[PeerCfg], script: Vec<TrackerOutcome>, default: TrackerOutcome, dir: &PathBuf, gated: bool) -> FullWorld {
         rdest::verif::set_gating(gated);
+        rdest::verif::set_fs_gating(gated);
         core::wipe_dir(dir);
         rdest::verif::clear_snapshots();
         rdest::verif::set_choices(vec![]);
@@ -154,8 +161,15 @@ impl FullWorld {
         })));
 
         let mut session = Session::new(t.meta.clone(), *OWN_ID);
+        // the public entry point `Session::run()` (with the terminal progress view) instead of
+        // `verif_run()`: only in the view-run subprocess, whose stdout is discarded
+        let with_view = WITH_VIEW.load(std::sync::atomic::Ordering::Relaxed);
         let session_task = local.spawn_local(async move {
-            session.verif_run().await;
+            if with_view {
+                session.run().await;
+            } else {
+                session.verif_run().await;
+            }
         });
         let mut w = FullWorld {
             rt,
@@ -221,6 +235,9 @@ impl FullWorld {
                 }
                 FEv::Release(i) => {
                     rdest::verif::gate_release(&self.peers[*i].cfg.addr);
+                }
+                FEv::FsRelease(path) => {
+                    rdest::verif::fs_release(path);
                 }
                 _ => {}
             }
@@ -350,5 +367,6 @@ impl Drop for FullWorld {
         rdest::verif::set_http(None);
         rdest::verif::set_net(None);
         rdest::verif::set_gating(false);
+        rdest::verif::set_fs_gating(false);
     }
 }
